@@ -262,6 +262,32 @@ Section C03_links.
     | None => False
     end.
   Proof. exact (l_erase_walk_exact m h l e fuel). Qed.
+
+  (** 11. read from the pointer-level side: whatever one operation of the
+      pointer-level model does from a state that represents [s] is what the
+      functional model does from [s] -- same results, same work log -- and is
+      therefore covered by theorem 2: invariant again, effect [post] on the
+      bags of live elements, abort only for an out-of-range hash function,
+      never a fault.  (The statements of C04 and C19 are about [r] and [w]
+      of [exec], which are the [r] and [w] of [lexec].) *)
+  Theorem C03_links_step_refines s ls o :
+    sys_inv s -> srel s ls ->
+    match lexec hf key ok ls o with
+    | LDone ls' r w =>
+      exists s', exec hf key fixed ok s o = XDone s' r w /\ srel s' ls' /\ sys_inv s' /\ post key s o s' r w
+    | LAbort => exec hf key fixed ok s o = XAbort /\ ~ in_range hf
+    | LFault => False
+    | LPrecond => exec hf key fixed ok s o = XPrecond
+    end.
+  Proof.
+    intros SI SR. pose proof (lexec_sim hf key ok Hdef s ls o SI SR) as X.
+    pose proof (exec_refines hf key ok Hdef s o SI) as R. unfold outcome_ok in R.
+    destruct (exec hf key fixed ok s o) as [s' r w| | |]; cbn [xsim] in X.
+    - destruct X as (ls' & -> & SR'). exists s'. destruct R. auto.
+    - rewrite X. auto.
+    - contradiction.
+    - rewrite X. reflexivity.
+  Qed.
 End C03_links.
 
 (** Non-vacuity: the history of [C03_example_run] on the pointer-level model
@@ -294,3 +320,4 @@ Print Assumptions C03_insert_adds.
 Print Assumptions C03_links_run_refines.
 Print Assumptions C03_chains_wellformed.
 Print Assumptions C03_links_erase_walk.
+Print Assumptions C03_links_step_refines.
